@@ -294,12 +294,17 @@ void vertex_case(Ctx& c, long idx) {
         const Pomerol::CreationOperator& CXk = p.Ops->getCreationOperator((Pomerol::ParticleIndex)q.k);
         const Pomerol::CreationOperator& CXl = p.Ops->getCreationOperator((Pomerol::ParticleIndex)q.l);
         double t0 = now();
-        Pomerol::TwoParticleGF chi(*p.S, *p.H, Ci, Cj, CXk, CXl, *p.DM); chi.prepare(); chi.compute();
-        Pomerol::GreensFunction G13(*p.S, *p.H, Ci, CXk, *p.DM); G13.prepare(); G13.compute();
-        Pomerol::GreensFunction G24(*p.S, *p.H, Cj, CXl, *p.DM); G24.prepare(); G24.compute();
-        Pomerol::GreensFunction G14(*p.S, *p.H, Ci, CXl, *p.DM); G14.prepare(); G14.compute();
-        Pomerol::GreensFunction G23(*p.S, *p.H, Cj, CXk, *p.DM); G23.prepare(); G23.compute();
+        // every second quadruple is set up "declare first": all objects (and the Vertex4 referring to them) are constructed before any of
+        // them is prepared or computed - the vertex holds references, so the order of construction must not matter
+        const bool declare_first = ((&q - &quads[0]) % 2 == 1);
+        Pomerol::TwoParticleGF chi(*p.S, *p.H, Ci, Cj, CXk, CXl, *p.DM);
+        Pomerol::GreensFunction G13(*p.S, *p.H, Ci, CXk, *p.DM);
+        Pomerol::GreensFunction G24(*p.S, *p.H, Cj, CXl, *p.DM);
+        Pomerol::GreensFunction G14(*p.S, *p.H, Ci, CXl, *p.DM);
+        Pomerol::GreensFunction G23(*p.S, *p.H, Cj, CXk, *p.DM);
+        if (!declare_first) { chi.prepare(); chi.compute(); G13.prepare(); G13.compute(); G24.prepare(); G24.compute(); G14.prepare(); G14.compute(); G23.prepare(); G23.compute(); }
         Pomerol::Vertex4 V(chi, G13, G24, G14, G23);
+        if (declare_first) { G23.prepare(); G23.compute(); G14.prepare(); G14.compute(); G24.prepare(); G24.compute(); G13.prepare(); G13.compute(); chi.prepare(); chi.compute(); c.count("declare_first_quadruples"); }
         t_compute += now() - t0; t0 = now();
         if (chi.isVanishing()) ++n_vanishing_chi;
         for (auto* part : chi.parts) n_terms += (long)(part->getNumResonantTerms() + part->getNumNonResonantTerms());
